@@ -182,5 +182,8 @@ def run(ctx):
             "embed-files.ce-err-dim", "embed-files.loademb-index", "embed-files.loademb-no-glove", "embed-trunc-wv.wv-err-short",
             "embed-trunc-wv.wv-ok", "embed-trunc-ce100.ce-ok", "embed-sem.sem-boosted", "embed-sem.sem-absent",
             "embed-sem.search-boosted", "embed-sem.search-absent"]
+    # headline replay: the most severe finding first (memory exhaustion, crashes, then the rest)
+    rank = {"loader-memory": 0, "loader-panic": 1, "cos-panic": 1, "search-panic": 1, "loademb-crash": 1}
+    ctx.hits.sort(key=lambda h: rank.get(h["cls"], 2))
     missing = [k for k in need if d.get(k, 0) == 0]
     ctx.oblige("coverage:generators-reach-every-path", "coverage", not missing, "not reached: %s" % missing if missing else "all %d path counters > 0" % len(need))
